@@ -56,6 +56,7 @@ type FuncContract struct {
 	NoInline bool
 	Safe     bool
 	Uses     []string
+	Reveals  []string
 	ModGhost []string // ghost variables the function may modify (trusted functions)
 	ModArgs  []string // pointer parameters whose pointee may be arbitrarily modified (trusted externals)
 	ModAll   bool     // trusted function may modify any modelled heap location
@@ -72,6 +73,7 @@ type SpecFunc struct {
 	Body    Expr // nil: uninterpreted
 	BodySrc string
 	Macro   bool
+	Opaque  bool // definition visible only where revealed (`reveals name`)
 	File    string
 }
 
@@ -83,6 +85,7 @@ type Axiom struct {
 }
 
 type Lemma struct {
+	Reveals []string
 	Name string
 	Src  string
 	E    Expr
@@ -113,7 +116,7 @@ func NewSpecs() *Specs {
 	return &Specs{Funcs: map[string]*FuncContract{}, Spec: map[string]*SpecFunc{}, Axioms: map[string]*Axiom{}, Ghost: map[string]*GhostVar{}, Consts: map[string]string{}}
 }
 
-var kwRe = regexp.MustCompile(`^(func|iface|spec|macro|axiom|lemma|ghost|effectfree|property|requires|ensures|loop|let|trusted|pure|inline|noinline|safe|uses|modifies|noverify|at|sets|local)\b`)
+var kwRe = regexp.MustCompile(`^(func|iface|spec|macro|axiom|lemma|ghost|effectfree|property|requires|ensures|loop|let|trusted|pure|inline|noinline|safe|uses|modifies|noverify|at|sets|local|reveals|opaque)\b`)
 
 // LoadFile parses one contract file. pkgPath is the import path used for
 // unqualified function names ("" for .spec files, which use full paths).
@@ -344,6 +347,29 @@ func (s *Specs) LoadFile(path, pkgPath string) error {
 				return fail(l, "expected: ghost var <name> <sort>")
 			}
 			s.Ghost[fs[1]] = &GhostVar{Name: fs[1], Sort: strings.Join(fs[2:], " ")}
+		case "reveals":
+			if curLemma != nil {
+				curLemma.Reveals = append(curLemma.Reveals, strings.Fields(rest)...)
+			} else if cur != nil {
+				cur.Reveals = append(cur.Reveals, strings.Fields(rest)...)
+			}
+		case "opaque":
+			cur, curLemma = nil, nil
+			r := strings.TrimSpace(rest)
+			if !strings.HasPrefix(r, "spec func") {
+				return fail(l, "expected 'opaque spec func'")
+			}
+			r = strings.TrimSpace(strings.TrimPrefix(r, "spec func"))
+			sf, err := parseSpecFunc(r, false)
+			if err != nil {
+				return fail(l, "%v", err)
+			}
+			sf.File = path
+			sf.Opaque = true
+			if _, dup := s.Spec[sf.Name]; dup {
+				return fail(l, "duplicate spec function %s", sf.Name)
+			}
+			s.Spec[sf.Name] = sf
 		case "spec", "macro":
 			cur, curLemma = nil, nil
 			r := rest
